@@ -6,8 +6,10 @@ package c02
 import (
 	"bytes"
 	"crypto"
+	"crypto/sha512"
 	"fmt"
 	"github.com/cloudflare/circl/ecc/bls12381"
+	"golang.org/x/crypto/sha3"
 	"math/big"
 	"strings"
 	"testing"
@@ -545,6 +547,32 @@ func TestC02EdVariants(t *testing.T) {
 						if verifyAny(w.name, pk, msg, sig, ctx) {
 							vlib.Report(t, "C02/accepts-altered/"+v.name+"/mode-VerifyAny", "VerifyAny under variant "+w.name+" accepted a "+v.name+" signature")
 							return
+						}
+					}
+					// the prehash relation: a signature over PH(msg) in a non-prehash variant is not a prehash-variant
+					// signature over msg with the same context, and the other way round (only the dom flag separates them)
+					{
+						var ph []byte
+						if v.seedSz == 32 {
+							d := sha512.Sum512(msg)
+							ph = d[:]
+						} else {
+							ph = make([]byte, 64)
+							sha3.ShakeSum256(ph, msg)
+						}
+						vIsPh := strings.HasSuffix(v.name, "ph")
+						for _, w := range vs {
+							w := w
+							if w.seedSz != v.seedSz || strings.HasSuffix(w.name, "ph") == vIsPh || len(ctx) < w.ctxMin || (w.ctxMin < 0 && ctx != "") {
+								continue
+							}
+							if vIsPh {
+								// v = ph over msg, presented to the non-ph variant w over PH(msg)
+								expectReject(t, sub, v.name, "prehash→"+w.name, func(m, sg []byte) bool { return w.verify(pk, m, sg, ctx) }, ph, sig, idp...)
+							} else {
+								sigH := v.sign(seed, ph, ctx)
+								expectReject(t, sub, v.name, "prehash→"+w.name, func(m, sg []byte) bool { return w.verify(pk, m, sg, ctx) }, msg, sigH, idp...)
+							}
 						}
 					}
 				case "ctx":
